@@ -130,7 +130,8 @@ class G:
             (1, lambda: ["call", ["name", r.choice(["max", "min"])], [["star", self.list_(d - 1)]], []]),
             (3, lambda: ["sub", self.list_(d - 1), self.int_(0)]),
             (2, lambda: ["attr", self.rec_(d - 1), "size"]),
-            (1, lambda: ["sub", self.name("d"), ["const", r.choice(["a", "b", "zz"])]]),
+            (2, lambda: ["sub", self.dict_(d - 1), ["const", r.choice(["a", "b", "zz"])]]),
+            (1, lambda: ["call", ["name", "len"], [self.dict_(d - 1)], []]),
             (2, lambda: ["call", ["name", "clamp"], [self.int_(d - 1)],
                          r.choice([[], [["lo", self.int_(0)]], [["hi", self.int_(0)], ["lo", self.int_(0)]]])]),
             (2, lambda: ["call", ["name", "inv"], [self.int_(d - 1)], []]),
@@ -182,7 +183,7 @@ class G:
             (4, lambda: self.quantifier(d)),
             (2, lambda: ["call", ["name", "bool"], [self.truthy(d - 1)], []]),
             (1, lambda: ["cmp", ["attr", self.rec_(d - 1), "child"], [[r.choice(["is", "is not"]), ["const", None]]]]),
-            (1, lambda: ["cmp", ["const", r.choice(["a", "b", "zz"])], [["in", self.name("d")]]]),
+            (1, lambda: ["cmp", ["const", r.choice(["a", "b", "zz"])], [["in", self.dict_(d - 1)]]]),
             (1, lambda: ["if", self.bool_(d - 1), self.bool_(d - 1), self.bool_(d - 1)]),
             # records compare by size and answer 0 / 1: a chain stops on a falsy answer that is not False
             (2, lambda: ["cmp", self.rec_(0), [[r.choice(["<", "<=", ">", ">="]), self.rec2_()],
@@ -262,6 +263,20 @@ class G:
             (1, lambda: ["if", self.bool_(d - 1), self.list_(d - 1), self.list_(d - 1)]),
         ]
         return self.pick(opts)()
+
+    def dict_(self, d):
+        """a dictionary: the variable, or a display with items and unpacked mappings"""
+        r = self.rng
+        if d <= 0 or r.random() < 0.5:
+            return self.name("d")
+        items = []
+        for _ in range(r.randint(1, 3)):
+            if r.random() < 0.35:
+                items.append([None, self.pick([(3, lambda: self.name("d")), (1, lambda: self.dict_(d - 1)),
+                                               (1, lambda: self.name("opt"))])()])
+            else:
+                items.append([["const", r.choice(["a", "b", "zz"])], self.int_(d - 1)])
+        return ["dict", items]
 
     def listcomp(self, d):
         if self.loop_depth >= 2:
@@ -569,6 +584,10 @@ def directed():
         ("dict-key-binds-comp", ["cmp", call("len", ["dict", [[["named", "tmp", ["bin", "+", N("x"), K(1)]],
                                                              ["sub", ["comp", "list", N("tmp"), None, [[["v"], False, N("xs"), []]]], K(0)]]]]), [["==", K(0)]]],
          {"x": 1, "xs": [1]}, {}),
+        # a mapping unpacked in a dictionary display; later items win
+        ("dict-star", ["cmp", call("len", ["dict", [[None, N("d")], [K("a"), N("x")]]]), [["==", K(0)]]], {"d": {"d": [["b", 2]]}, "x": 1}, {}),
+        ("dict-star-override", ["cmp", ["sub", ["dict", [[K("a"), N("x")], [None, N("d")]]], K("a")], [[">", K(5)]]],
+         {"d": {"d": [["a", 2]]}, "x": 1}, {}),
         ("slice", ["cmp", call("sum", ["sub", N("xs"), ["slice", K(1), None]]), [[">", K(100)]]], {"xs": [1, 2, 3]}, {}),
         ("dictcomp", ["cmp", call("len", ["comp", "dict", N("v"), ["bin", "*", N("v"), N("x")], [[["v"], False, N("xs"), []]]]), [[">", K(5)]]],
          {"xs": [1, 2, 2], "x": 2}, {}),
